@@ -175,8 +175,11 @@ func (s *BadSmellListener) EnterFieldDeclaration(ctx *FieldDeclarationContext) {
 }
 
 func (s *BadSmellListener) EnterLocalVariableDeclaration(ctx *LocalVariableDeclarationContext) {
-	typ := ctx.GetChild(0).(antlr.ParseTree).GetText()
-	variableName := ctx.GetChild(1).GetChild(0).GetChild(0).(antlr.ParseTree).GetText()
+	if ctx.TypeType() == nil || ctx.VariableDeclarators() == nil {
+		return
+	}
+	typ := ctx.TypeType().GetText()
+	variableName := ctx.VariableDeclarators().GetChild(0).GetChild(0).(antlr.ParseTree).GetText()
 	localVars[variableName] = typ
 }
 
